@@ -19,10 +19,11 @@ logger = logging.getLogger(__name__)
 
 def _remove_unused_optional_outputs(
     node: ir.Node, graph_outputs: frozenset[ir.Value], onnx_opset_version: int
-) -> None:
+) -> bool:
+    """Remove unused optional outputs of the node. Returns True if the node was changed."""
     try:
         if node.domain not in {"", "onnx.ai"}:
-            return
+            return False
         op_schema = onnx.defs.get_schema(node.op_type, onnx_opset_version, domain=node.domain)
     except Exception:  # pylint: disable=broad-exception-caught
         logger.info(
@@ -30,8 +31,9 @@ def _remove_unused_optional_outputs(
             node,
             stack_info=True,
         )
-        return
+        return False
 
+    modified = False
     if node.op_type == "BatchNormalization":
         # BatchNormalization op has 3 outputs: Y, running_mean, running_var
         # If running_mean and running_var are not used, remove them, and the training_mode attribute
@@ -42,27 +44,31 @@ def _remove_unused_optional_outputs(
             return False
 
         if is_used_output(1) or is_used_output(2):
-            return
-        if len(node.outputs) > 1:
-            node.outputs[1].name = ""
-        if len(node.outputs) > 2:
-            node.outputs[2].name = ""
-        node.attributes.pop("training_mode", None)
-        return
+            return False
+        for i in (1, 2):
+            if len(node.outputs) > i and node.outputs[i].name != "":
+                node.outputs[i].name = ""
+                modified = True
+        if "training_mode" in node.attributes:
+            node.attributes.pop("training_mode")
+            modified = True
+        return modified
 
     optional_info = []
     for o in op_schema.outputs:
         # Current ops do not have optional outputs if they have variable number of outputs
         if o.option == onnx.defs.OpSchema.FormalParameterOption.Variadic:
-            return
+            return False
         optional_info.append(o.option == onnx.defs.OpSchema.FormalParameterOption.Optional)
     # If no optional outputs in spec, skip delete operations
     if len([o == 1 for o in optional_info]) == 0:
-        return
+        return False
 
     for i, out in enumerate(node.outputs):
         if out not in graph_outputs and (not out.uses()) and optional_info[i] is True:
-            out.name = ""
+            if out.name != "":
+                out.name = ""
+                modified = True
 
     # Remove trailing outputs with empty names by counting backwards
     new_output_count = len(node.outputs)
@@ -71,24 +77,34 @@ def _remove_unused_optional_outputs(
             new_output_count -= 1
         else:
             break
-    node.resize_outputs(new_output_count)
+    if new_output_count != len(node.outputs):
+        node.resize_outputs(new_output_count)
+        modified = True
+    return modified
 
 
-def _remove_trailing_empty_inputs(node: ir.Node) -> None:
-    # Remove trailing None inputs
+def _remove_trailing_empty_inputs(node: ir.Node) -> bool:
+    """Remove trailing None inputs. Returns True if the node was changed."""
     new_input_count = len(node.inputs)
     for i in reversed(range(len(node.inputs))):
         if node.inputs[i] is None:
             new_input_count -= 1
         else:
             break
+    if new_input_count == len(node.inputs):
+        return False
     node.resize_inputs(new_input_count)
+    return True
 
 
-def _remove_unused_nodes_in_graph_like(function_or_graph: ir.Function | ir.Graph) -> int:
+def _remove_unused_nodes_in_graph_like(
+    function_or_graph: ir.Function | ir.Graph,
+) -> tuple[int, bool]:
+    """Remove unused nodes. Returns the number of removed nodes and whether anything was changed."""
     graph_outputs = frozenset(function_or_graph.outputs)
     onnx_opset_version = function_or_graph.opset_imports.get("", None)
     count = 0
+    modified = False
     for node in reversed(function_or_graph):
         removable = True
         for output in node.outputs:
@@ -98,17 +114,26 @@ def _remove_unused_nodes_in_graph_like(function_or_graph: ir.Function | ir.Graph
         if removable:
             function_or_graph.remove(node, safe=True)
             count += 1
+            modified = True
         else:
-            _remove_trailing_empty_inputs(node)
+            if _remove_trailing_empty_inputs(node):
+                modified = True
             if onnx_opset_version is not None:
-                _remove_unused_optional_outputs(node, graph_outputs, onnx_opset_version)
+                if _remove_unused_optional_outputs(node, graph_outputs, onnx_opset_version):
+                    modified = True
             for attr in node.attributes.values():
                 if attr.type == ir.AttributeType.GRAPH:
-                    count += _remove_unused_nodes_in_graph_like(attr.as_graph())
+                    sub_count, sub_modified = _remove_unused_nodes_in_graph_like(
+                        attr.as_graph()
+                    )
+                    count += sub_count
+                    modified = modified or sub_modified
                 elif attr.type == ir.AttributeType.GRAPHS:
                     for graph in attr.as_graphs():
-                        count += _remove_unused_nodes_in_graph_like(graph)
-    return count
+                        sub_count, sub_modified = _remove_unused_nodes_in_graph_like(graph)
+                        count += sub_count
+                        modified = modified or sub_modified
+    return count, modified
 
 
 class RemoveUnusedNodesPass(ir.passes.InPlacePass):
@@ -120,7 +145,7 @@ class RemoveUnusedNodesPass(ir.passes.InPlacePass):
     """
 
     def call(self, model: ir.Model) -> ir.passes.PassResult:
-        count = _remove_unused_nodes_in_graph_like(model.graph)
+        count, modified = _remove_unused_nodes_in_graph_like(model.graph)
         graph_outputs = frozenset(model.graph.outputs)
         graph_inputs = frozenset(model.graph.inputs)
         initializers = model.graph.initializers
@@ -129,11 +154,14 @@ class RemoveUnusedNodesPass(ir.passes.InPlacePass):
                 assert init.name is not None
                 del initializers[init.name]
                 count += 1
+                modified = True
         for function in model.functions.values():
-            count += _remove_unused_nodes_in_graph_like(function)
+            function_count, function_modified = _remove_unused_nodes_in_graph_like(function)
+            count += function_count
+            modified = modified or function_modified
         if count:
             logger.info("Removed %s unused nodes", count)
-        return ir.passes.PassResult(model, modified=bool(count))
+        return ir.passes.PassResult(model, modified=modified)
 
 
 class RemoveUnusedFunctionsPass(ir.passes.InPlacePass):
